@@ -21,6 +21,32 @@ class _Other:
         return self._text
 
 
+class _Repr:
+    def __init__(self, text):
+        self._t = text
+
+    def _repr_html_(self):
+        return self._t
+
+
+class _Tagifiable:
+    def tagify(self):
+        return htmltools_HTML("")
+
+
+class _TagifiableRepr(_Tagifiable):
+    def __init__(self, text):
+        self._t = text
+
+    def _repr_html_(self):
+        return self._t
+
+
+def htmltools_HTML(s):
+    import htmltools
+    return htmltools.HTML(s)
+
+
 def p_pval(t: Toks):
     import htmltools
     k = t.next()
@@ -63,6 +89,23 @@ def p_pval(t: Toks):
         t.next()
         if cls == "Other":
             return _Other(fields.get("__str__"))
+        if cls == "Tag":
+            tg = htmltools.Tag(fields["name"], _add_ws=fields["add_ws"])
+            dict.update(tg.attrs, fields["attrs"])
+            tg.children = fields["children"]
+            return tg
+        if cls == "TagList":
+            tl = htmltools.TagList()
+            tl.data = list(fields["data"])
+            return tl
+        if cls == "ReprObj":
+            return _Repr(fields["_repr_html_"])
+        if cls == "TagifiableObj":
+            return _TagifiableRepr(fields["_repr_html_"]) if "_repr_html_" in fields else _Tagifiable()
+        if cls == "MetadataNode":
+            return htmltools.MetadataNode()
+        if cls == "HTMLDependency":
+            return htmltools.HTMLDependency(fields.get("name") or "d", "1.0")
         raise ValueError(f"cannot realise an instance of {cls}")
     raise ValueError(f"bad pval {k}")
 
@@ -113,6 +156,10 @@ def _call(f: str, a: list):
         return _core.TagAttrDict._normalize_attr_name(a[0])
     if f == "normalize_attr_value":
         return _core.TagAttrDict._normalize_attr_value(a[0])
+    if f == "Tag_get_html_string":
+        return a[0].get_html_string(a[1], a[2])
+    if f == "TagList_get_html_string":
+        return a[0].get_html_string(a[1], a[2], add_ws=a[3], _escape_strings=a[4])
     if f in ("TagAttrDict_setitem", "TagAttrDict_update"):
         d = _core.TagAttrDict()
         dict.update(d, a[0])
